@@ -69,14 +69,23 @@ class ShardWriterNP(ShardWriterBase):
             raise ValueError(f"Unexpected attributes {unexpected}, expected "
                              f"{sorted(expected)}")
 
+        # A value which NumPy can only represent as an array of Python
+        # objects (e.g., None) would be pickled by np.savez and the shard
+        # could not be read back (allow_pickle=False). Check all values
+        # before buffering any of them.
+        copies = {name: np.copy(value) for name, value in values.items()}
+        for name, copy in copies.items():
+            if copy.dtype == object:
+                raise ValueError(f"The value of attribute {name} cannot be "
+                                 f"saved as a NumPy array of numbers, bytes, "
+                                 f"or strings: {type(values[name])}")
+
         # Just buffer all values.
         if not self._buffer:
-            self._buffer = {
-                name: [np.copy(value)] for name, value in values.items()
-            }
+            self._buffer = {name: [copy] for name, copy in copies.items()}
         else:
-            for name, value in values.items():
-                self._buffer[name].append(np.copy(value))
+            for name, copy in copies.items():
+                self._buffer[name].append(copy)
 
     def close(self) -> None:
         """Close the shard file(-s).
